@@ -9,6 +9,9 @@
 (*              "B" barrier.  W and Q are commands (FSM.Apply); C reaches the FSM only through    *)
 (*              StoreConfiguration; B and N never reach it.                                      *)
 (*                                                                                               *)
+(* Node \ Voter are read replicas (non-voters): they receive entries and snapshots and apply    *)
+(* them, take reads (a linearizable or strong read is refused there: not leader), never vote.    *)
+(*                                                                                               *)
 (* Switches (TRUE = the design the properties need):                                             *)
 (*   UpgradeStrong    first linearizable read in a term is upgraded to a strong read (srt check) *)
 (*   VerifyQuorum     leadership is confirmed with a quorum after the read index is taken         *)
@@ -28,6 +31,7 @@
 EXTENDS Naturals, Sequences, FiniteSets, TLC, RqRead
 
 CONSTANTS Node, MaxTerm, MaxLog, NonCmdKinds,
+          Voter,         \* the voting members; Node \ Voter are read replicas: they replicate and apply, never vote or lead
           MaxRestarts,   \* node restarts explored (volatile state lost: role, commit index, FSM position, strongReadTerm)
           WarmStart,     \* start from the (reachable) state "stable leader in term 1 that has served a strong read"
           StrongThroughLog, SignalConfig, SignalBarrier,   \* + UpgradeStrong, VerifyQuorum, RecheckTerm of RqRead
@@ -52,7 +56,8 @@ VARIABLES role,        \* [Node -> {"F","L"}]
 vars == <<role, term, log, commitIdx, lastApplied, sig, srt, ackedIdx, rd, nrestart, db, snapIdx, snapDb, nsnap>>
 snapvars == <<db, snapIdx, snapDb, nsnap>>
 
-Quorums == {Q \in SUBSET Node : Cardinality(Q) * 2 > Cardinality(Node)}
+ASSUME Voter \subseteq Node
+Quorums == {Q \in SUBSET Voter : Cardinality(Q) * 2 > Cardinality(Voter)}
 LastTerm(l) == IF Len(l) = 0 THEN 0 ELSE l[Len(l)].term
 IsCmd(e) == e.kind \in {"W", "Q"}
 Signalled(e) == IsCmd(e) \/ (e.kind = "C" /\ SignalConfig) \/ (e.kind = "B" /\ SignalBarrier)
@@ -69,7 +74,7 @@ ColdInit == /\ role = [n \in Node |-> "F"] /\ term = [n \in Node |-> 0]
             /\ srt = [n \in Node |-> 0] /\ ackedIdx = 0 /\ rd = NoRead /\ nrestart = 0
             /\ db = [n \in Node |-> {}] /\ snapIdx = [n \in Node |-> 0] /\ snapDb = [n \in Node |-> {}] /\ nsnap = 0
 (* reachable from ColdInit: ld elected in term 1, no-op and one strong read replicated, committed and applied *)
-WarmInit == \E ld \in Node :
+WarmInit == \E ld \in Voter :
             /\ role = [n \in Node |-> IF n = ld THEN "L" ELSE "F"] /\ term = [n \in Node |-> 1]
             /\ log = [n \in Node |-> <<[term |-> 1, kind |-> "N"], [term |-> 1, kind |-> "Q"]>>]
             /\ commitIdx = [n \in Node |-> 2] /\ lastApplied = [n \in Node |-> 2] /\ sig = [n \in Node |-> 2]
@@ -121,7 +126,7 @@ AdvanceCommit(n) ==
   /\ role[n] = "L"
   /\ \E k \in (commitIdx[n]+1)..Len(log[n]) :
        /\ log[n][k].term = term[n]
-       /\ Agree(n, k) \in Quorums
+       /\ (Agree(n, k) \cap Voter) \in Quorums
        /\ commitIdx' = [commitIdx EXCEPT ![n] = k]
   /\ UNCHANGED <<role, term, log, lastApplied, sig, srt, ackedIdx, rd, nrestart, snapvars>>
 
@@ -271,6 +276,7 @@ Spec == Init /\ [][Next]_vars
 (* Raft environment sanity *)
 StateMachineSafety == \A i, j \in Node : \A k \in 1..Min(commitIdx[i], commitIdx[j]) :
                          k <= Len(log[i]) /\ k <= Len(log[j]) => log[i][k] = log[j][k]
+ReplicaNeverLeads == \A n \in Node \ Voter : role[n] = "F"
 OneLeaderPerTerm == \A i, j \in Node : role[i] = "L" /\ role[j] = "L" /\ term[i] = term[j] => i = j
 (* C02: a completed linearizable/strong read reflects every write acknowledged before it began *)
 ReadLin == rd.pc = "done" => rd.served >= rd.minIdx
